@@ -147,6 +147,8 @@ def shape(t):
 
 
 def run(ctx):
+    from checks import isolate
+    isolate.enter(ctx)
     exe = mc.build_variant(ctx, ["json"])
     exe_s = mc.build_variant(ctx, ["json", "suppress"])
     ok, problems = core.coq_audit(ctx, PROPS, THEOREMS)
@@ -224,6 +226,8 @@ def run(ctx):
 
 
 def replay(ctx, path):
+    from checks import isolate
+    isolate.enter(ctx)
     obj = json.load(open(path))
     fi = obj.get("failing_input") or {}
     p = fi.get("project")
